@@ -22,6 +22,9 @@ pub enum Scenario {
     TerminalRead { own: bool, partner: bool, linked: bool },
     /// Axle::<N>::new() then use every terminal
     AxleNew(u8),
+    /// Axle::<n>::get_terminal(index): in range => a distinct slot inside the axle object; out of range => a panic
+    /// (or still a slot of this axle), never a reference to memory outside the object
+    AxleIndex { n: u8, index: u64 },
     /// the scratch-array enumeration (arity 1..=max) as a plain program under `cargo +nightly miri run`, hook off
     Miri { max_arity: u8 },
     /// probe program by index into the generated list; `control` = its must-compile twin
@@ -125,6 +128,42 @@ fn check_axle(n: u8) -> CheckResult {
             Ok(CaseInfo::new(n >= 1, hash_of(&("axle", n))).class("axle constructor array"))
         }
     }
+}
+
+/// addresses only; the returned reference is never dereferenced
+fn check_axle_index(n: u8, index: u64) -> CheckResult {
+    use rrtk::devices::Axle;
+    let idx = index as usize;
+    // (address returned or panic message, address of the axle, its size, address of slot 0 if any)
+    macro_rules! go {
+        ($($k:literal),*) => {
+            match n {
+                $($k => {
+                    let a = Axle::<$k, E>::new();
+                    let base = &a as *const _ as usize;
+                    let size = core::mem::size_of_val(&a);
+                    let slot0 = if $k > 0 { Some(a.get_terminal(0) as *const _ as usize) } else { None };
+                    (catch(|| a.get_terminal(idx) as *const _ as usize), base, size, slot0)
+                })*
+                _ => return Ok(CaseInfo::new(false, 0)),
+            }
+        };
+    }
+    let (r, base, size, slot0) = go!(0, 1, 2, 3, 4, 5, 6, 7, 8);
+    let stride = core::mem::size_of::<core::cell::RefCell<Terminal<'static, E>>>();
+    let inside = |addr: usize| match slot0 {
+        Some(s0) => addr >= s0 && addr < base + size && (addr - s0) % stride == 0 && (addr - s0) / stride < n as usize,
+        None => false,
+    };
+    if idx < n as usize {
+        match r {
+            Err(m) => return Err(Violation::new("C16/axle/index-panic", format!("Axle::<{}>::get_terminal({}) panicked although the index is in range: {}", n, idx, m))),
+            Ok(addr) => ensure!(Some(addr) == slot0.map(|s| s + idx * stride) && inside(addr), "C16/axle/index-wrong-slot", "Axle::<{}>::get_terminal({}) returned address {:#x}; the axle occupies {:#x}..{:#x} and its slot 0 is at {:?}", n, idx, addr, base, base + size, slot0),
+        }
+    } else if let Ok(addr) = r {
+        ensure!(inside(addr), "C16/axle/index-out-of-range", "Axle::<{}>::get_terminal({}) returned a reference at {:#x}, outside the axle's own terminals ({:#x}..{:#x}): an index past the end must panic", n, idx, addr, base, base + size);
+    }
+    Ok(CaseInfo::new(idx >= n as usize, hash_of(&("axle-index", n, index))).class("axle terminal index"))
 }
 
 // ------------------------------------------------------------------------------------------------
@@ -475,6 +514,7 @@ pub fn check(s: &Scenario) -> CheckResult {
         Scenario::Nary { product, arity, mask, time_perm } => check_nary(*product, *arity, *mask, *time_perm),
         Scenario::TerminalRead { own, partner, linked } => check_terminal(*own, *partner, *linked),
         Scenario::AxleNew(n) => check_axle(*n),
+        Scenario::AxleIndex { n, index } => check_axle_index(*n, *index),
         Scenario::Probe { id, control } => check_probe(id, *control),
         Scenario::Miri { max_arity } => check_miri(*max_arity),
     }
@@ -483,7 +523,7 @@ pub fn check(s: &Scenario) -> CheckResult {
 pub struct C16;
 impl Property for C16 {
     const ID: &'static str = "C16";
-    const RULE: &'static str = "(a) exhaustive, with the cfg(rrtk_verif) hook that fills the four MaybeUninit scratch arrays with 0x7F bytes compiled in: n-ary sum and product of arity 1..8 x all 2^N present/absent patterns (inputs 2^i / the i-th prime, so the exact result identifies the contributing subset) x 3 timestamp permutations, terminal state read x own/partner/linked combinations, Axle::<N>::new() for N = 0..8 followed by use of every terminal; the same enumeration also runs as a plain program under `cargo +nightly miri run` without the hook (arity <= 5 quick, <= 8 thorough). (b) generated #![forbid(unsafe_code)] probe programs: 11 terminal accessors x {drop, move into Box, move to another binding, move into Vec, escape the scope, connect to a longer-lived terminal then drop} x {read through the reference, connect it}, plus probes that try to build a dangling Borrow / BorrowMut / Reference / ReferenceUnsafe or call the unsafe constructors outside unsafe; each probe is compiled by rustc as its own crate against the live rrtk; oracle = must be rejected; every probe's control twin (device kept alive) must compile. Non-trivial = a pattern with >= 1 absent and >= 1 present input / a probe whose control twin compiles; distinct = pattern or probe id.";
+    const RULE: &'static str = "(a) exhaustive, with the cfg(rrtk_verif) hook that fills the four MaybeUninit scratch arrays with 0x7F bytes compiled in: n-ary sum and product of arity 1..8 x all 2^N present/absent patterns (inputs 2^i / the i-th prime, so the exact result identifies the contributing subset) x 3 timestamp permutations, terminal state read x own/partner/linked combinations, Axle::<N>::new() for N = 0..8 followed by use of every terminal, and Axle::<N>::get_terminal(i) for every in-range index and 12 indices past the end (in range: the i-th slot inside the object; past the end: a panic, never an address outside the axle); the same enumeration also runs as a plain program under `cargo +nightly miri run` without the hook (arity <= 5 quick, <= 8 thorough). (b) generated #![forbid(unsafe_code)] probe programs: 11 terminal accessors x {drop, move into Box, move to another binding, move into Vec, escape the scope, connect to a longer-lived terminal then drop} x {read through the reference, connect it}, plus probes that try to build a dangling Borrow / BorrowMut / Reference / ReferenceUnsafe or call the unsafe constructors outside unsafe; each probe is compiled by rustc as its own crate against the live rrtk; oracle = must be rejected; every probe's control twin (device kept alive) must compile. Non-trivial = a pattern with >= 1 absent and >= 1 present input / a probe whose control twin compiles; distinct = pattern or probe id.";
     type Scenario = Scenario;
     fn strategy(_tier: Tier) -> BoxedStrategy<Scenario> {
         Just(Scenario::AxleNew(0)).boxed()
@@ -515,6 +555,10 @@ impl Property for C16 {
         for k in 0..=8u8 {
             sink(Scenario::AxleNew(k));
             n += 1;
+            for index in (0..k as u64 + 4).chain([16, 255, 256, 1 << 16, 1 << 32, u64::MAX / 64, u64::MAX / 2, u64::MAX]) {
+                sink(Scenario::AxleIndex { n: k, index });
+                n += 1;
+            }
         }
         let ps = probes();
         for p in &ps {
@@ -523,7 +567,7 @@ impl Property for C16 {
             }
             sink(Scenario::Probe { id: p.id.clone(), control: false });
         }
-        vec![format!("all 2^N patterns for arity 1..8 of sum and product x 3 time permutations, 8 terminal combinations, Axle<0..8> ({} cases)", n), format!("{} probe programs of the grammar (+ control twins), each compiled separately", ps.len())]
+        vec![format!("all 2^N patterns for arity 1..8 of sum and product x 3 time permutations, 8 terminal combinations, Axle<0..8> construction and terminal indexing ({} cases)", n), format!("{} probe programs of the grammar (+ control twins), each compiled separately", ps.len())]
     }
     fn check(s: &Scenario) -> CheckResult {
         check(s)
